@@ -248,6 +248,7 @@ impl Check for C18 {
 
 /// hand-written malformed inputs (regressions for repaired defects, witnesses of known findings)
 const DIRECTED: &[(&str, &str)] = &[
+    ("constd-with-a-multi-byte-character-in-a-long-digit-string", "1 sort bitvec 129\n2 constd 1 6\u{e9}0564733841876926926749214863536422911\n3 output 2 o\n"),
     ("array-of-array-sort", "1 sort bitvec 2\n2 sort array 1 1\n3 sort array 2 1\n"),
     ("const-without-value", "1 sort bitvec 4\n2 const 1\n"),
     ("slice-hi-lt-lo", "1 sort bitvec 4\n2 input 1\n3 sort bitvec 2\n4 slice 3 2 1 2\n"),
